@@ -805,6 +805,11 @@ def datum_id_rule(rep, F):
             mid_calls = [c.to or "" for c in F.calls(mid[0])] + [c.to or "" for sub in F.fns if sub.startswith(mid[0] + "::{closure") for c in F.calls(sub)] if mid and mid[0] in F.fns else []
             if "original_bytes" in rd and "datum" in rd and not any(x.endswith("PlutusData::to_bytes") or x.endswith("PlutusData as cbor_event::Serialize>::serialize") for x in mid_calls):
                 rep.violation("DATUM-id", "PlutusData|ord-not-on-bytes", "PlutusData's hand-written Ord reads original_bytes but never compares the bytes the two datums are written with (to_bytes): Some(canonical bytes) and None would still be told apart", {})
+            if mid and mid[0] in F.fns:
+                import fieldflow as _ff
+                o0 = _ff.Origins(F, mid[0]).of_place("_0")
+                if any(x.startswith("call:") and ("PlutusDataEnum as std::cmp::Ord>::cmp" in x or x.split("@")[0].endswith("Ordering::then_with") or x.split("@")[0].endswith("Ordering::then")) for x in o0):
+                    rep.violation("DATUM-id", "PlutusData|ord-value-decides", "PlutusData's Ord returns the order of the decoded values whenever they differ (datum.cmp(..).then_with(bytes)): the value order also looks at encoding details of nested lists (definite_encoding: None for an API-built list, Some(..) for a decoded one) that do not show in the bytes, so a list datum built through the API and the same datum decoded from its own bytes are two set elements - witness set `9f 9f01ff 9f01ff ff`. The value order may only be a shortcut for Equal; otherwise the bytes decide", {})
             if "original_bytes" not in rd or "datum" not in rd:
                 rep.violation("DATUM-id", "PlutusData|ord-basis|%s" % ",".join(sorted(rd)), "PlutusData's hand-written Ord compares %s only: two datums with equal value but different preserved bytes (different hashes, both required by their inputs) collapse to one in every witness-set de-duplication" % sorted(rd), {})
 
